@@ -122,9 +122,10 @@ FACS = {'task': 0, 'analysis': 1, 'regress': 2}
 
 def run_case(case):
     rng = random.Random('sched:%s' % case['seed'])
-    desc = case.get('desc') or engine.random_desc(
-        rng, npk=case.get('npk', 3), nalg=case.get('nalg', 6),
-        feedback=case.get('feedback', True))
+    desc = case.get('desc') or (
+        engine.fan_desc(rng, feedback=case.get('feedback', True)) if case.get('shape') == 'fan'
+        else engine.random_desc(rng, npk=case.get('npk', 3), nalg=case.get('nalg', 6),
+                                feedback=case.get('feedback', True)))
     tnames = sorted(case.get('targets', ['T1', 'T2']))
     W['targets'] = list(tnames)
     W['stored'] = 0
@@ -291,6 +292,9 @@ def gen_event(rng, profile, tags, graph, hands, holding, nextw, outs_of, vid, N)
         break
     if k == 'org':
         names = rng.sample(range(len(tags)), rng.randint(1, min(2, len(tags))))
+        parents = [i for i, nd in enumerate(graph['nodes']) if len(nd['kids']) > 1]
+        if parents and rng.random() < 0.5:
+            names = [rng.choice(parents)]
         r = rng.random()
         if r < 0.08:
             tg = []
